@@ -3,6 +3,7 @@ package vc
 import (
 	"fmt"
 	"go/types"
+	"regexp"
 	"sort"
 	"strings"
 
@@ -185,8 +186,18 @@ func wrap(term string, t types.Type) string {
 	return fmt.Sprintf("(let ((wx %s)) (ite (and (<= (- %s) wx) (< wx %s)) wx (let ((wm (mod wx %s))) (ite (< wm %s) wm (- wm %s)))))", term, h, h, m, h, m)
 }
 
+var reAlias = regexp.MustCompile(`\b(byte|rune)\b`)
+
+// typeName prints a type with package names and with the predeclared aliases
+// byte/rune replaced by uint8/int32, so that identical types get identical heap maps.
 func typeName(t types.Type) string {
-	return types.TypeString(t, func(p *types.Package) string { return p.Name() })
+	s := types.TypeString(t, func(p *types.Package) string { return p.Name() })
+	return reAlias.ReplaceAllStringFunc(s, func(m string) string {
+		if m == "byte" {
+			return "uint8"
+		}
+		return "int32"
+	})
 }
 
 // elemMapKey names the heap map holding values of (non-struct) type t.
